@@ -345,3 +345,38 @@ def repairable_singular(rng, var_pool, count):
         out.append(rng.choice([('Mul', [x, u]), ('Add', [x, u]), ('Mul', [u, x, x]), ('Minus', x, u), ('Power', x, u),
                                ('Add', [('Sin', x), u, ('C', 1)]), ('Divide', u, x)]))
     return out
+
+
+def hash_collision_variant(e):
+    """the same tree with constants replaced by DIFFERENT numbers that have the same Python hash (hash(-1) == hash(-2),
+    hash(0) == hash(2**61 - 1), hash(1) == hash(2**61)): an unequal expression with an equal hash - whatever is
+    remembered under hash(expression) instead of the expression is handed to the wrong one.  None if nothing to replace"""
+    swap = {-1: -2, -2: -1, 0: 2 ** 61 - 1, 1: 2 ** 61}
+    changed = [False]
+
+    def go(x):
+        if x[0] == 'C' and not isinstance(x[1], bool) and x[1] in swap and not changed[0]:
+            changed[0] = True
+            y = swap[x[1]]
+            return ('C', float(y) if isinstance(x[1], float) and abs(y) < 2 ** 53 else y)
+        if x[0] in ('C', 'V'):
+            return x
+        return sx.with_children(x, [go(c) for c in sx.children(x)])
+    out = go(e)
+    return out if changed[0] else None
+
+
+def hash_collision_pairs(rng, var_pool, n):
+    out = []
+    tries = 0
+    while len(out) < n and tries < 30 * n:
+        tries += 1
+        u = rexpr(rng, rng.randint(1, 4), var_pool, p_const=0.1)
+        c = rng.choice([-1, -2, -1.0, 1, 0])
+        e = rng.choice([('Add', [('Mul', [('C', c), ('NthPow', u, 2)]), ('V', var_pool[0])]), ('Recip', ('Add', [u, ('C', c)])),
+                        ('Mul', [('C', c), u, ('V', var_pool[0])]), ('Sin', ('Add', [('V', var_pool[0]), ('C', c)])),
+                        ('Power', ('V', var_pool[0]), ('Add', [('C', c), ('C', 3)])), ('Exp', ('Mul', [('C', c), u]), math.e)])
+        t = hash_collision_variant(e)
+        if t is not None and sx.var_ids(e):
+            out.append((e, t))
+    return out
